@@ -113,7 +113,7 @@ PROPS["C01"] = dict(
           "(FNV-1a over operation, outcome, returned values and the observable state of all three strings after every step)."),
     probes=["reached_len_N", "op_at_len_N", "iterator_insert_at_end", "iterator_replace_empty_range", "search_with_defaulted_position",
             "strlen_layout_op_with_stale_bytes", "N255_default_constructed", "stream_short_reads", "stream_early_eof_reached",
-            "stream_underflow_threw", "stream_sink_refused", "aliasing_op", "strlen_layout_resize_grow", "single_pass_input_range"],
+            "stream_underflow_threw", "stream_sink_refused", "aliasing_op", "strlen_layout_resize_grow", "single_pass_input_range", "bad_position_under_C01"],
     components=_FS_COMPONENTS, assumptions=_FS_ASSUME,
 )
 PROPS["C02"] = dict(
